@@ -50,6 +50,7 @@ def run(ctx):
         ctx.guarded("R-C05-raw-getters", raw_getters, ctx, crate, reach)
         ctx.guarded("R-C05-bound", bound, ctx, crate)
         ctx.guarded("R-C05-more-bytes", more_bytes, ctx, crate)
+        ctx.guarded("R-C05-more-bytes", asks_for_the_missing_bytes_only, ctx, crate)
 
 
 # ------------------------------------------------------------------------------------------
@@ -450,3 +451,39 @@ def loops_only_on_insufficient(ctx, rule, body):
         ctx.ok(rule, fn, "only InsufficientBytes re-enters the read loop", site=body.fn_loc())
     else:
         ctx.violation(rule, fn, "read loop", "an error other than InsufficientBytes can re-enter the decode loop", site=body.fn_loc())
+
+
+def asks_for_the_missing_bytes_only(ctx, crate):
+    """The count in Error::InsufficientBytes(n) is what Network::read then waits for (read_bytes(n)) before it decodes
+    again. It must be the number of bytes MISSING (needed - buffered), or the minimum 1; a constant larger than 1
+    over-asks when part of the needed bytes is already buffered: with one byte of a 2-byte frame (PINGREQ,
+    DISCONNECT) buffered the decoder then waits for a byte beyond the declared frame and the packet is not yielded."""
+    rule = "R-C05-more-bytes"
+    prog = ctx.progs[crate]
+    fns = prog.find(r"(^|::)(protocol::v[45]|mqttbytes|mqttbytes::v5)::(check|parse_fixed_header|length)$", "A")
+    n = 0
+    for f in fns:
+        for bi, b in enumerate(f.blocks):
+            if b.get("cleanup"):
+                continue
+            for st in b["s"]:
+                if "lhs" in st and st["rv"]["k"] == "agg" and st["rv"].get("var") == "InsufficientBytes" and st["rv"].get("adt", "").endswith("Error"):
+                    n += 1
+                    srcs = provenance(f, st["rv"]["ops"][0])
+                    ok = bool(srcs)
+                    why = ""
+                    for s_ in srcs:
+                        if s_.kind == "const":
+                            if s_.v not in (1, "1"):
+                                ok, why = False, "constant %s" % s_.v
+                        elif s_.kind == "op" and str(s_.name).startswith("Sub"):
+                            pass
+                        else:
+                            ok, why = False, "%s" % s_.kind
+                    if ok:
+                        ctx.ok(rule, f.id, "InsufficientBytes carries needed - buffered (or the minimum 1)", site=f.loc(st.get("sp")))
+                    else:
+                        ctx.violation(rule, f.id, "InsufficientBytes count is not the missing byte count",
+                                      "Error::InsufficientBytes is built from %s, not from `needed - buffered`: when part of the needed bytes is already buffered the reader waits for bytes beyond the declared frame (a split 2-byte frame is never yielded)" % why,
+                                      site=f.loc(st.get("sp")))
+    ctx.floor(rule, "InsufficientBytes constructions in check/parse_fixed_header/length (%s)" % crate, n, 6)
